@@ -51,6 +51,7 @@ func Harness_P3_Layered() {
 		l, a, b := vhConstIdx("el", i), vhConstIdx("ea", i), vhConstIdx("eb", i)
 		f, t := all[l][a], all[l+1][b]
 		e := graph.NewEdge(f, t, 1)
+		e.IsReversed = vhBool("rev") // any edge may be a reversed one; this phase must not care
 		f.Out.Add(e)
 		t.In.Add(e)
 		g.Edges.Add(e)
